@@ -9,7 +9,8 @@ Two ways of getting an encoded message EM into the real decoders:
   real RSA   fixed keys (512, 513, 768, 1023, 1024-bit moduli) built with RSA.construct; c = EM^e mod n is offered to the real
              decrypt; the key object is wrapped so that the block the real _decrypt_to_bytes returned is logged (the judge decodes
              THAT block); for e = 3 the quotient witnesses of EM^3 = c (mod n) are logged for TLC to check the link.
-stdin: {"cases": [...], "v15_small_keep": float, "v15_real_keep": float, "oaep_keep": float, "rsa_per_key": int}; stdout: list of records."""
+stdin: {"cases": [...], "v15_small_keep": [p02, pother], "v15_real_keep": [p02, pother], "oaep_keep": float, "rsa_per_key": int};
+stdout: list of records."""
 import hashlib
 import json
 import os
@@ -19,7 +20,7 @@ sys.path.insert(0, os.path.dirname(os.path.abspath(__file__)))
 from _util import exc_class, limbs, rng  # noqa: E402
 
 from Crypto.Cipher import PKCS1_OAEP, PKCS1_v1_5  # noqa: E402
-from Crypto.Hash import SHA1, SHA256  # noqa: E402
+from Crypto.Hash import SHA1, SHA256, SHA384, SHA512  # noqa: E402
 from Crypto.PublicKey import RSA  # noqa: E402
 
 # primes produced at authoring time (seeded search, primality confirmed with `openssl prime`)
@@ -144,7 +145,7 @@ def hash_digest(name, data):
 
 
 def hlen_of(name):
-    return int(name[3:]) if name.startswith("toy") else {"SHA1": 20, "SHA256": 32}[name]
+    return int(name[3:]) if name.startswith("toy") else {"SHA1": 20, "SHA256": 32, "SHA384": 48, "SHA512": 64}[name]
 
 
 def mgf1(seed, n, name):
@@ -161,7 +162,7 @@ def mgf_apply(mgf, seed, n):
 
 
 def hash_arg(name):
-    return ToyHash(int(name[3:])) if name.startswith("toy") else {"SHA1": SHA1, "SHA256": SHA256}[name]
+    return ToyHash(int(name[3:])) if name.startswith("toy") else {"SHA1": SHA1, "SHA256": SHA256, "SHA384": SHA384, "SHA512": SHA512}[name]
 
 
 def oaep_new(key, hname, mgf, label, randfunc=None):
@@ -335,8 +336,10 @@ def rec_rt(scheme, key, msg, src, hname="", mgf=None, label=b"", seed=None, expe
 def main():
     inp = json.load(sys.stdin)
     cases = inp["cases"]
-    v15_small_keep = inp.get("v15_small_keep", 1.0)   # fraction of the (sentinel, expected length) combinations replayed, k <= 32
-    v15_real_keep = inp.get("v15_real_keep", 1.0)     # the same at real sizes
+    # fraction of the (sentinel, expected length) combinations replayed: [blocks that begin 00 02, other blocks] (the others are
+    # all refused because of their first two octets; the blocks that begin 00 02 exercise every other rule)
+    v15_small_keep = inp.get("v15_small_keep", [1.0, 1.0])   # k <= 32
+    v15_real_keep = inp.get("v15_real_keep", [1.0, 1.0])     # real sizes
     oaep_keep = inp.get("oaep_keep", 1.0)      # fraction of the real-hash DB patterns kept
     rsa_per_key = inp.get("rsa_per_key", 40)   # enumerated blocks per real key and scheme offered as real ciphertexts
     r = rng("c07")
@@ -353,7 +356,7 @@ def main():
         if fam == "v15":
             em = bytes(c["em"])
             combos = c["combos"]
-            keep = v15_real_keep if k > 32 else v15_small_keep
+            keep = (v15_real_keep if k > 32 else v15_small_keep)[0 if (c["b1"], c["b2"]) == (0, 2) else 1]
             if keep < 1.0:
                 combos = [cb for cb in combos if r.random() < keep]
             desc = "b1=%02x b2=%02x first zero at %d second zero at tail+%d" % (c["b1"], c["b2"], c["z"], c["tz"])
@@ -408,6 +411,8 @@ def main():
         elif fam == "rtoaep":
             msg = bytes(c["msg"])
             targets = [("stub", StubKey(k))] + by_k.get(k, [])
+            if k > 32 and not c["hash"].startswith("toy") and by_k.get(k):
+                targets = by_k[k]       # the real hashes are costly for the judge: the stub adds nothing where a real key of that size exists
             for name, key in targets:
                 rec_rt("oaep", key, msg, name, c["hash"], c["mgf"], bytes(c["label"]), bytes(c["seed"]))
         else:
